@@ -87,7 +87,7 @@ func genKV(r *rand.Rand, id string, size int, total int) []string {
 	g := &Gen{r: r}
 	peers := g.choosePeers(total)
 	keys := g.keys(1 + g.pick(4))
-	g.add("scn %s kind=kv acl=%s peers=%s", id, joinInts(peers), joinInts(peers))
+	g.add("scn %s kind=kv acl=%s peers=%s%s", id, joinInts(peers), joinInts(peers), g.acFlag())
 	steps := 2 + g.pick(size)
 	for i := 0; i < steps; i++ {
 		p := peers[g.pick(len(peers))]
@@ -117,7 +117,7 @@ func genDoc(r *rand.Rand, id string, size int, total int) []string {
 	docKeys := [][]byte{[]byte("doc1"), []byte("Doc1"), []byte("DOC2"), []byte("a-b"), []byte("ab"), []byte("x.y"), []byte("Z9"), []byte("z9!")}
 	nk := 2 + g.pick(len(docKeys)-1)
 	docKeys = docKeys[:nk]
-	g.add("scn %s kind=doc acl=%s peers=%s", id, joinInts(peers), joinInts(peers))
+	g.add("scn %s kind=doc acl=%s peers=%s%s", id, joinInts(peers), joinInts(peers), g.acFlag())
 	steps := 2 + g.pick(size)
 	batch := func() string {
 		n := 1 + g.pick(3)
@@ -181,7 +181,7 @@ func (g *Gen) docQueries(p int, docKeys [][]byte, n int) {
 func genLog(r *rand.Rand, id string, size int, total int) []string {
 	g := &Gen{r: r}
 	peers := g.choosePeers(total)
-	g.add("scn %s kind=log acl=%s peers=%s", id, joinInts(peers), joinInts(peers))
+	g.add("scn %s kind=log acl=%s peers=%s%s", id, joinInts(peers), joinInts(peers), g.acFlag())
 	steps := 2 + g.pick(size)
 	nAdded := 0
 	for i := 0; i < steps; i++ {
@@ -243,9 +243,9 @@ func genRoutes(r *rand.Rand, id string, size int, total int) []string {
 	// the rest of the mesh): replicas then hold heads whose ancestors they failed to fetch
 	failfast := g.pick(3) == 0
 	if failfast {
-		g.add("scn %s kind=%s acl=%s peers=%s unreach=fail", id, kind, joinInts(peers), joinInts(peers))
+		g.add("scn %s kind=%s acl=%s peers=%s unreach=fail%s", id, kind, joinInts(peers), joinInts(peers), g.psFlag())
 	} else {
-		g.add("scn %s kind=%s acl=%s peers=%s", id, kind, joinInts(peers), joinInts(peers))
+		g.add("scn %s kind=%s acl=%s peers=%s%s", id, kind, joinInts(peers), joinInts(peers), g.psFlag())
 	}
 	up := map[[2]int]bool{}
 	for _, p := range peers {
@@ -349,7 +349,7 @@ func genReload(r *rand.Rand, id string, size int, total int) []string {
 	if g.pick(3) == 0 {
 		sortfn = " sortfn=revtie"
 	}
-	g.add("scn %s kind=%s acl=%s peers=%s%s", id, kind, joinInts(peers), joinInts(peers), sortfn)
+	g.add("scn %s kind=%s acl=%s peers=%s%s%s", id, kind, joinInts(peers), joinInts(peers), sortfn, g.psFlag())
 	write := func(p int) {
 		switch kind {
 		case "kv":
@@ -500,6 +500,25 @@ var forgeRecipes = []string{"own", "copiedid", "copiedblock", "foreignkey", "oth
 // genForge: write lists of every shape, non-writers, forged / tampered / foreign entries delivered by
 // every route, alone, mixed with valid heads at any position, or hidden behind a colluding writer's
 // entry; then an honest re-announcement of everything.
+// acFlag: a quarter of the scenarios run under the `simple` access controller (write list passed by
+// every peer at every open) instead of the default `ipfs` one (write list stored with the database)
+// psFlag: in a third of the scenarios the stores subscribe through the library's default pubsub adapter
+// (pubsubcoreapi over the scripted network: joins found by its polling diff, its message filter, its
+// cached topic objects) instead of the directly scripted pubsub
+func (g *Gen) psFlag() string {
+	if g.pick(3) == 0 {
+		return " ps=coreapi"
+	}
+	return ""
+}
+
+func (g *Gen) acFlag() string {
+	if g.pick(4) == 0 {
+		return " ac=simple"
+	}
+	return ""
+}
+
 func genForge(r *rand.Rand, id string, size int, total int) []string {
 	g := &Gen{r: r}
 	perm := g.r.Perm(total)
@@ -532,7 +551,7 @@ func genForge(r *rand.Rand, id string, size int, total int) []string {
 	}
 	peers := append([]int{members[0]}, members[1:]...)
 	peers = append(peers, att)
-	g.add("scn %s kind=%s acl=%s peers=%s", id, kind, acl, joinInts(peers))
+	g.add("scn %s kind=%s acl=%s peers=%s%s", id, kind, acl, joinInts(peers), g.acFlag())
 	// in half of the scenarios every member has a subscriber that queries the store from inside its
 	// handler: what a replicated event announces must be listed (rejected logs included in a batch
 	// must not be announced)
@@ -736,7 +755,18 @@ func genTransport(r *rand.Rand, id string, size int, total int) []string {
 		for i := 0; i < 1+g.pick(size); i++ {
 			snaps = append(snaps, snapshot())
 		}
-		g.add("tpeers %s", strings.Join(snaps, ";"))
+		if g.pick(3) == 0 {
+			// a second watcher on the same topic once the first has ended; the membership it starts
+			// from is the one the first watcher last saw
+			var snaps2 []string
+			snaps2 = append(snaps2, snaps[len(snaps)-1])
+			for i := 0; i < g.pick(size); i++ {
+				snaps2 = append(snaps2, snapshot())
+			}
+			g.add("tpeers %s %s", strings.Join(snaps, ";"), strings.Join(snaps2, ";"))
+		} else {
+			g.add("tpeers %s", strings.Join(snaps, ";"))
+		}
 	}
 	for k := 0; k < 2; k++ {
 		var ms []string
